@@ -218,6 +218,65 @@ pub open spec fn next_spec(st: State, html: bool, check: bool, keys: Seq<Range<u
         },
     }
 }
+/// how much of the content is still ahead of the iterator (termination measure of a loop over the attributes)
+pub open spec fn ahead(st: State, n: nat) -> nat {
+    match st {
+        State::Done => 0,
+        State::Next(o) => if o <= n { (n - o + 1) as nat } else { 0 },
+        State::SkipValue(o) => if o <= n { (n - o + 1) as nat } else { 0 },
+        State::SkipEqValue(o) => if o <= n { (n - o + 1) as nat } else { 0 },
+    }
+}
+/// every step that yields something moves on: the iteration over a tag terminates (C03)
+pub proof fn lemma_next_progress(st: State, html: bool, check: bool, keys: Seq<Range<usize>>, s: Seq<u8>)
+    requires state_ok(st, s.len()), s.len() <= usize::MAX
+    ensures ({
+        let step = next_spec(st, html, check, keys, s);
+        step.out is Some ==> ahead(step.state, s.len()) < ahead(st, s.len())
+    })
+{
+    let n = s.len() as int;
+    match st {
+        State::SkipValue(o) => { lemma_first_from(s, o as int, Cls::Ws); }
+        State::SkipEqValue(o) => {
+            lemma_first_from(s, o + 1, Cls::NotWs);
+            match first_from(s, o + 1, Cls::NotWs) {
+                Some(v) => { lemma_first_from(s, v + 1, Cls::Byte(s[v])); lemma_first_from(s, v + 1, Cls::Ws); }
+                None => {}
+            }
+        }
+        _ => {}
+    }
+    match recover_spec(st, s) {
+        None => {}
+        Some(offset) => {
+            lemma_first_from(s, offset, Cls::NotWs);
+            match first_from(s, offset, Cls::NotWs) {
+                None => {}
+                Some(k0) => {
+                    lemma_first_from(s, k0 + 1, Cls::EqOrWs);
+                    match first_from(s, k0 + 1, Cls::EqOrWs) {
+                        None => {}
+                        Some(k1) => {
+                            lemma_first_from(s, k1 + 1, Cls::NotWs);
+                            let eq = if s[k1] == 0x3d { Some(k1) } else { match first_from(s, k1 + 1, Cls::NotWs) { Some(p) => if s[p] == 0x3d { Some(p) } else { None }, None => None } };
+                            match eq {
+                                Some(e) => {
+                                    lemma_first_from(s, e + 1, Cls::NotWs);
+                                    match first_from(s, e + 1, Cls::NotWs) {
+                                        Some(v) => { lemma_first_from(s, v + 1, Cls::Byte(s[v])); lemma_first_from(s, v + 1, Cls::Ws); }
+                                        None => {}
+                                    }
+                                }
+                                None => {}
+                            }
+                        }
+                    }
+                }
+            }
+        }
+    }
+}
 /// every remembered key lies inside the tag content
 pub open spec fn keys_in(keys: Seq<Range<usize>>, n: nat) -> bool {
     forall|i: int| 0 <= i < keys.len() ==> (#[trigger] keys[i]).start <= keys[i].end && keys[i].end <= n
@@ -355,19 +414,19 @@ pub enum State {
 }
 //@end
 //@extract attributes::IterState | src/events/attributes.rs :: struct IterState | serves=C09,C11
- struct IterState {
+ pub struct IterState {
     /// Iteration state that determines what actions should be done before the
     /// actual parsing of the next attribute
-    state: State,
+    pub state: State,
     /// If `true`, enables ability to parse unquoted values and key-only (empty)
     /// attributes
-    html: bool,
+    pub html: bool,
     /// If `true`, checks for duplicate names
-    check_duplicates: bool,
+    pub check_duplicates: bool,
     /// If `check_duplicates` is set, contains the ranges of already parsed attribute
     /// names. We store a ranges instead of slices to able to report a previous
     /// attribute position
-    keys: Vec<Range<usize>>,
+    pub keys: Vec<Range<usize>>,
 }
 //@end
 
@@ -710,16 +769,16 @@ impl IterState {
 }
 
 //@extract attributes::Attributes | src/events/attributes.rs :: struct Attributes | serves=C11
- struct Attributes<'a> {
+ pub struct Attributes<'a> {
     /// Slice of `BytesStart` corresponding to attributes
-    bytes: &'a [u8],
+    pub bytes: &'a [u8],
     /// Iterator state, independent from the actual source of bytes
-    state: IterState,
+    pub state: IterState,
 }
 //@end
 impl<'a> Attributes<'a> {
 //@extract attributes::Attributes::wrap | src/events/attributes.rs :: impl<'a> Attributes<'a> :: fn wrap | serves=C11
- fn wrap(buf: &'a [u8], pos: usize, html: bool) -> (r: Self)
+ pub(crate) fn wrap(buf: &'a [u8], pos: usize, html: bool) -> (r: Self)
         ensures r.bytes == buf, r.state.html == html, r.state.check_duplicates, r.state.keys@.len() == 0, r.state.state == State::Next(pos)
  {
         Self {
@@ -731,7 +790,7 @@ impl<'a> Attributes<'a> {
 }
 impl<'a> BytesStart<'a> {
 //@extract events::BytesStart::attributes | src/events/mod.rs :: impl<'a> BytesStart<'a> :: fn attributes | serves=C09,C11
- fn attributes(&self) -> (r: Attributes)
+ pub fn attributes(&self) -> (r: Attributes)
         // XML rules: every attribute needs `=` and a quoted value; iteration starts behind the name; duplicates are checked
         ensures r.bytes@ == self.buf@, !r.state.html, r.state.check_duplicates, r.state.keys@.len() == 0, r.state.state == State::Next(self.name_len)
  {
@@ -740,7 +799,7 @@ impl<'a> BytesStart<'a> {
     }
 //@end
 //@extract events::BytesStart::html_attributes | src/events/mod.rs :: impl<'a> BytesStart<'a> :: fn html_attributes | serves=C11
- fn html_attributes(&self) -> (r: Attributes)
+ pub fn html_attributes(&self) -> (r: Attributes)
         // HTML rules: unquoted values and attributes without value are accepted
         ensures r.bytes@ == self.buf@, r.state.html, r.state.check_duplicates, r.state.keys@.len() == 0, r.state.state == State::Next(self.name_len)
  {
@@ -849,7 +908,9 @@ pub open spec fn item_of<'a>(s: Seq<u8>, a: Attr<Range<usize>>, at: Attribute<'a
 }
 impl<'a> Attributes<'a> {
     /// type invariant of the public iterator
-    pub closed spec fn inv(&self) -> bool { state_ok(self.state.state, self.bytes@.len()) && keys_in(self.state.keys@, self.bytes@.len()) }
+    pub open spec fn inv(&self) -> bool { state_ok(self.state.state, self.bytes@.len()) && keys_in(self.state.keys@, self.bytes@.len()) }
+    /// termination measure: how much of the tag is still ahead
+    pub open spec fn ahead(&self) -> nat { ahead(self.state.state, self.bytes@.len()) }
 }
 impl<'a> From<Attr<&'a [u8]>> for Attribute<'a> {
 //@extract attributes::Attribute::from_attr | src/events/attributes.rs :: impl<'a> From<Attr<&'a [u8]>> for Attribute<'a> :: fn from | serves=C11
@@ -864,12 +925,23 @@ impl<'a> From<Attr<&'a [u8]>> for Attribute<'a> {
 //@end
 }
 impl<'a> Attributes<'a> {
+//@extract attributes::Attributes::with_checks | src/events/attributes.rs :: impl<'a> Attributes<'a> :: fn with_checks | serves=C05,C11
+ pub fn with_checks(&mut self, val: bool) -> (r: &mut Attributes<'a>)
+        ensures r.bytes == old(self).bytes, r.state.state == old(self).state.state, r.state.html == old(self).state.html,
+            r.state.keys == old(self).state.keys, r.state.check_duplicates == val, *final(self) == *final(r)
+ {
+        self.state.check_duplicates = val;
+        self
+    }
+//@end
 //@extract attributes::Attributes::next | src/events/attributes.rs :: impl<'a> Iterator for Attributes<'a> :: fn next | serves=C09,C11
 //@rewrite Option<Self::Item> ==> Option<core::result::Result<Attribute<'a>, AttrError>>
-    fn next(&mut self) -> (r: Option<core::result::Result<Attribute<'a>, AttrError>>)
+    pub fn next(&mut self) -> (r: Option<core::result::Result<Attribute<'a>, AttrError>>)
         requires old(self).inv()
         ensures
             final(self).inv(), final(self).bytes == old(self).bytes,
+            // every item moves the iterator on (C03: a loop over the attributes of a tag terminates)
+            r is Some ==> final(self).ahead() < old(self).ahead(),
             final(self).state.html == old(self).state.html, final(self).state.check_duplicates == old(self).state.check_duplicates,
             // C11 / C09: the public item is the located attribute of one documented step, key and value being exactly
             // the bytes of its ranges; errors are passed on unchanged
@@ -880,6 +952,7 @@ impl<'a> Attributes<'a> {
                    Some(Ok(a)) => r matches Some(Ok(at)) && item_of(old(self).bytes@, a, at),
                } }),
     {
+        proof { axiom_slice_len(self.bytes); lemma_next_progress(self.state.state, self.state.html, self.state.check_duplicates, self.state.keys@, self.bytes@); }
         match self.state.next(self.bytes) {
             None => None,
             Some(Ok(a)) => Some(Ok(a.map(|range: Range<usize>| -> (x: &'a [u8])
